@@ -15,6 +15,7 @@ LEVEL_NOTE = ("Bounds: m<=4 modules quick / m<=5 thorough; overhang length 2 (an
               "concrete marker words prefixed by the symbolic overhang. That the real module/vector classes deliver such "
               "overhang/fragment values from records is C04's conclusion. A palindromic start overhang counts as 'reverse-"
               "complements a start overhang' (the reading under which the code is right). Trusted: z3, CPython, symx models.")
+LEVEL_NOTE_EXTRA = 'Also: the overhang graph also run through a real generic vector typed from its plasmid at every origin.'
 TECHNIQUE = "bounded symbolic execution of the real Python source (symx) with z3 over symbolic overhang graphs; reference-walk oracle; replay on the real stack"
 EXPLANATION = ("symbolic execution of AssemblyManager on stub modules with symbolic overhangs: dict lookups keyed by symbolic Seq "
                "values become solver-decided equality tests; outcomes are compared with a reference walk on every path")
